@@ -54,4 +54,17 @@ def replay(doc):
     if doc['unit'].endswith('check_kwargs_shape') and isinstance(args.get('sigs'), np.ndarray) and args['sigs'].dtype == object:
         args['sigs'] = np.zeros(args['sigs'].shape)
     rc = doc['contract']
-    return ceval.check_call(fn, args, rc['case'], rc['base'], strict_requires=True)
+    # an argument of opaque type comes out of the model as an empty dictionary (a stand-in)
+    opaque = [k for k, v in args.items() if isinstance(v, dict) and not v]
+    if 'ax' in opaque:
+        # a drawing surface cannot come out of a solver model: a real (off-screen) one
+        import matplotlib
+        matplotlib.use('Agg')
+        import matplotlib.pyplot as plt
+        args['ax'] = plt.subplots()[1]
+    r = ceval.check_call(fn, args, rc['case'], rc['base'], strict_requires=True)
+    if r and opaque and 'raised' in r and ('AttributeError' in r or 'TypeError' in r):
+        # the stand-in for an opaque argument (an empty dictionary) is not the kind of object the code expects: what it
+        # raises says nothing about the code
+        return 'SKIP a stand-in for an opaque argument (%s) made the call raise: %s' % (', '.join(opaque), r[:200])
+    return r
